@@ -19,6 +19,8 @@ Definition nleb (x y : num) : bool := if Rle_dec x y then true else false.
 Definition nsqrt (x : num) : num := sqrt x.
 Definition nexp (x : num) : num := exp x.
 Definition nln (x : num) : num := ln x.
+(* mean.py _exp: math.exp saturating at +inf on overflow; the reals do not overflow *)
+Definition nexp_sat (x : num) : num := exp x.
 Definition nabs (x : num) : num := Rabs x.
 Definition nmin (x y : num) : num := Rmin x y.
 Definition nmax (x y : num) : num := Rmax x y.
@@ -31,6 +33,7 @@ Definition nofnat (n : nat) : num := INR n.
 Fixpoint nharm (m : nat) : num := match m with O => 0%R | S k => (nharm k + 1 / INR (S k))%R end.
 (* junk value standing for "Python raises here"; every theorem excludes these paths by hypothesis *)
 Definition nraise : num := 0%R.
+Definition agg_wrap (a : aggregates num) : aggregates num := a.
 Definition dist_raise : dist num := mk_dist (fun _ => 0%R) (fun _ => 0%R) (fun _ => 0%R) (fun _ => 0%R).
 Definition oget_dist (o : option (dist num)) : dist num := match o with Some d => d | None => dist_raise end.
 Definition eadd (a : ext num) (b : num) : ext num := match a with Fin x => Fin (x + b)%num | PInf => PInf | NInf => NInf end.
